@@ -279,6 +279,24 @@ type Built struct {
 	SignerSp *SignerSpec
 }
 
+// SigTooLong tells that the packet API refused the packet although the input was fine: the shipped
+// signer was asked to sign and returned a signature LONGER than the size it had announced itself
+// (EstimateSize). With signers whose signature length varies from call to call (ECDSA) the same
+// description may build on the next attempt.
+func (b *Built) SigTooLong() bool {
+	return b.Err != nil && b.Rec != nil && b.Rec.Asked && len(b.Rec.SigVal) > int(b.Rec.Inner.EstimateSize())
+}
+
+// BuildRetry is Build repeated (at most tries times) while the outcome is SigTooLong, so that
+// whether a description is constructible does not depend on one random signature.
+func BuildRetry(d *Desc, tries int) *Built {
+	b := Build(d)
+	for i := 1; i < tries && b.SigTooLong(); i++ {
+		b = Build(d)
+	}
+	return b
+}
+
 // PanicSite returns "<panic value> @ <innermost repository function on the stack>".
 func PanicSite(r any) string {
 	pcs := make([]uintptr, 64)
@@ -726,7 +744,7 @@ func Sweep(bases []Base) []SweepCase {
 			}
 			d0 := base.Desc.clone()
 			d0.Signer, d0.PaySize, d0.PaySplit = si, 8, ""
-			b0 := Build(&d0)
+			b0 := BuildRetry(&d0, 64) // the list must not depend on one random signature length
 			if b0.Err != nil || b0.Panic != "" {
 				continue
 			}
